@@ -1011,3 +1011,157 @@ pub fn names_family(tier: Tier) -> Vec<Member> {
     }
     out
 }
+
+// ------------------------------------------------------------------------------------------
+// reach(k): every subset of size <= k of 40 reference edges over a fixed entity population
+// ------------------------------------------------------------------------------------------
+
+pub const REACH_EDGES: usize = 40;
+
+pub fn reach_edge_name(e: usize) -> &'static str {
+    [
+        "F0:call F1", "F0:call F2", "F0:call IF", "F1:call F2", "F2:call F1", "F1:call IF", "F0:global.get G0", "F1:global.set G0",
+        "F0:global.get IG", "F2:global.get G1(init=global.get IG)", "F0:global.get GF(init=ref.func F1)", "F0:table.get LT", "F1:table.size IT",
+        "F0:table.size XT", "F0:memory.size", "F1:i32.load", "F0:table.init EP LT", "F0:elem.drop EP", "F2:table.init EX LT", "F0:table.init EXX XT",
+        "F0:memory.init DP", "F1:data.drop DP", "F0:ref.func F2", "F0:block(type MV)", "F0:call_indirect T1 LT", "F1:table.copy LT IT", "F0:memory.copy",
+        "F2:memory.grow", "export LT", "export M0", "export G0", "start=F2", "EA.offset=global.get IG", "DA.offset=global.get IG", "EA.items+=F1",
+        "declared segment ED[F2]", "active segment EAI on imported table [F1]", "active data DA", "export IF", "export GF",
+    ][e]
+}
+
+pub fn build_reach(edges: &[usize]) -> Vec<u8> {
+    let has = |e: usize| edges.contains(&e);
+    let mut mb = MB::default();
+    let t1 = mb.ty(&[], &[]);
+    let mv = mb.ty(&[I32, I64], &[I32, I64]);
+    // imports: IF func, IG i32 global, IGF funcref global, IGX externref global, IT table
+    mb.imports.push(("env".into(), "if".into(), Desc::Func(t1)));
+    mb.imports.push(("env".into(), "ig".into(), Desc::Global(I32, false)));
+    mb.imports.push(("env".into(), "igf".into(), Desc::Global(FUNCREF, false)));
+    mb.imports.push(("env".into(), "igx".into(), Desc::Global(EXTERNREF, false)));
+    mb.imports.push(("env".into(), "it".into(), Desc::Table(FUNCREF, Lim::new(4, None))));
+    let (ifn, ig, igf, igx, it) = (0u32, 0u32, 1u32, 2u32, 0u32);
+    let (f0, f1, f2) = (1u32, 2u32, 3u32);
+    let (g0, g1, gf) = (3u32, 4u32, 5u32);
+    let (lt, xt) = (1u32, 2u32);
+    mb.tables.push((FUNCREF, Lim::new(4, None)));
+    mb.tables.push((EXTERNREF, Lim::new(4, None)));
+    mb.mems.push(Lim::new(1, Some(3)));
+    mb.globals.push((I32, true, expr(i32_const(11))));
+    mb.globals.push((I32, false, expr(global_get(ig))));
+    mb.globals.push((FUNCREF, false, expr(ref_func(f1))));
+    // element segments: EP=0 passive [F1]; EA=1 active on LT; EX=2 passive exprs funcref; EXX=3 passive externref
+    mb.elems.push(elem_seg(1, 0, &[], &[f1], &[], FUNCREF));
+    let ea_items: Vec<u32> = if has(34) { vec![f2, f1] } else { vec![f2] };
+    let ea_off = if has(32) { global_get(ig) } else { i32_const(0) };
+    mb.elems.push(elem_seg(2, lt, &ea_off, &ea_items, &[], FUNCREF));
+    mb.elems.push(elem_seg(5, 0, &[], &[], &[ref_func(f1), global_get(igf), ref_null(FUNCREF)], FUNCREF));
+    mb.elems.push(elem_seg(5, 0, &[], &[], &[global_get(igx), ref_null(EXTERNREF)], EXTERNREF));
+    let (ep, ex, exx) = (0u32, 2u32, 3u32);
+    if has(35) {
+        mb.elems.push(elem_seg(3, 0, &[], &[f2], &[], FUNCREF));
+    }
+    if has(36) {
+        mb.elems.push(elem_seg(0, 0, &i32_const(1), &[f1], &[], FUNCREF));
+    }
+    // data: DP=0 passive; DA active
+    mb.datas.push(data_seg(1, 0, &[], b"passive-data"));
+    let dp = 0u32;
+    if has(37) {
+        let off = if has(33) { global_get(ig) } else { i32_const(8) };
+        mb.datas.push(data_seg(0, 0, &off, b"active-data"));
+    }
+    mb.data_count = Some(true);
+    let zero3 = cat(&[&i32_const(0), &i32_const(0), &i32_const(0)]);
+    let mut bodies: [Vec<u8>; 3] = [cat(&[&i32_const(5000), &[DROP]]), cat(&[&i32_const(5001), &[DROP]]), cat(&[&i32_const(5002), &[DROP]])];
+    let snippet = |e: usize| -> Option<(usize, Vec<u8>)> {
+        Some(match e {
+            0 => (0, call(f1)),
+            1 => (0, call(f2)),
+            2 => (0, call(ifn)),
+            3 => (1, call(f2)),
+            4 => (2, call(f1)),
+            5 => (1, call(ifn)),
+            6 => (0, cat(&[&global_get(g0), &[DROP]])),
+            7 => (1, cat(&[&i32_const(1), &global_set(g0)])),
+            8 => (0, cat(&[&global_get(ig), &[DROP]])),
+            9 => (2, cat(&[&global_get(g1), &[DROP]])),
+            10 => (0, cat(&[&global_get(gf), &[DROP]])),
+            11 => (0, cat(&[&i32_const(0), &[0x25], &uleb_v(lt as u64), &[DROP]])),
+            12 => (1, cat(&[&[0xfc, 0x10], &uleb_v(it as u64), &[DROP]])),
+            13 => (0, cat(&[&[0xfc, 0x10], &uleb_v(xt as u64), &[DROP]])),
+            14 => (0, cat(&[&[0x3f, 0x00], &[DROP]])),
+            15 => (1, cat(&[&i32_const(0), &[0x28, 0x02, 0x00], &[DROP]])),
+            16 => (0, cat(&[&zero3, &[0xfc, 0x0c], &uleb_v(ep as u64), &uleb_v(lt as u64)])),
+            17 => (0, cat(&[&[0xfc, 0x0d], &uleb_v(ep as u64)])),
+            18 => (2, cat(&[&zero3, &[0xfc, 0x0c], &uleb_v(ex as u64), &uleb_v(lt as u64)])),
+            19 => (0, cat(&[&zero3, &[0xfc, 0x0c], &uleb_v(exx as u64), &uleb_v(xt as u64)])),
+            20 => (0, cat(&[&zero3, &[0xfc, 0x08], &uleb_v(dp as u64), &[0x00]])),
+            21 => (1, cat(&[&[0xfc, 0x09], &uleb_v(dp as u64)])),
+            22 => (0, cat(&[&ref_func(f2), &[DROP]])),
+            23 => (0, cat(&[&i32_const(0), &i64_const(0), &[0x02], &sleb_v(mv as i64), &[END], &[DROP], &[DROP]])),
+            24 => (0, cat(&[&i32_const(3), &[0x11], &uleb_v(t1 as u64), &uleb_v(lt as u64)])),
+            25 => (1, cat(&[&zero3, &[0xfc, 0x0e], &uleb_v(lt as u64), &uleb_v(it as u64)])),
+            26 => (0, cat(&[&zero3, &[0xfc, 0x0a, 0x00, 0x00]])),
+            27 => (2, cat(&[&i32_const(0), &[0x40, 0x00], &[DROP]])),
+            _ => return None,
+        })
+    };
+    for e in edges {
+        if let Some((f, code)) = snippet(*e) {
+            bodies[f].extend_from_slice(&code);
+        }
+    }
+    for b in bodies.iter_mut() {
+        b.push(END);
+    }
+    let [b0, b1, b2] = bodies;
+    mb.func(t1, vec![], b0);
+    mb.func(t1, vec![], b1);
+    mb.func(t1, vec![], b2);
+    mb.export("r", 0, f0);
+    if has(28) {
+        mb.export("t", 1, lt);
+    }
+    if has(29) {
+        mb.export("m", 2, 0);
+    }
+    if has(30) {
+        mb.export("g", 3, g0);
+    }
+    if has(31) {
+        mb.start = Some(f2);
+    }
+    if has(38) {
+        mb.export("if", 0, ifn);
+    }
+    if has(39) {
+        mb.export("gf", 3, gf);
+    }
+    mb.build()
+}
+
+pub fn reach_family(tier: Tier) -> Vec<Member> {
+    let k = if tier == Tier::Quick { 2 } else { 3 };
+    let mut out = vec![];
+    let n = REACH_EDGES;
+    out.push(Member { family: "reach", coords: "[]".into(), wasm: build_reach(&[]) });
+    for a in 0..n {
+        out.push(Member { family: "reach", coords: format!("[{}]", a), wasm: build_reach(&[a]) });
+    }
+    for a in 0..n {
+        for b in a + 1..n {
+            out.push(Member { family: "reach", coords: format!("[{},{}]", a, b), wasm: build_reach(&[a, b]) });
+        }
+    }
+    if k >= 3 {
+        for a in 0..n {
+            for b in a + 1..n {
+                for c in b + 1..n {
+                    out.push(Member { family: "reach", coords: format!("[{},{},{}]", a, b, c), wasm: build_reach(&[a, b, c]) });
+                }
+            }
+        }
+    }
+    out
+}
